@@ -61,6 +61,13 @@ func (p *Prog) statusAmongResults(fn *ssa.Function) (int, string) {
 		if k, ok := constInt(stripConv(r.Results[j])); ok && k == bad {
 			continue
 		}
+		// status and error are the two results of one call of a pair function,
+		// which sets them together (R-PAIR-P)
+		if cs, is := callOf(r.Results[j]); cs != nil && is == 0 {
+			if ce, ie := callOf(r.Results[n-1]); ce == cs && ie == 1 && p.pairKind(calleeSig(cs)) == kind {
+				continue
+			}
+		}
 		// the status is known to be the bad one on this branch
 		known := false
 		for _, f := range r.Facts {
@@ -1055,6 +1062,12 @@ func (p *Prog) launderCheck(fn *ssa.Function, c *ssa.Call, stV, errV ssa.Value) 
 			}
 			if sh.Kind == "nil" && p.statusFact(fs, stV, failedK) == 0 {
 				bad = append(bad, "return at "+p.pos(r.Instr.Pos())+" returns a nil error although the callee's status was never tested for failure")
+				continue
+			}
+			if p.statusFact(fs, stV, failedK) == 0 {
+				// the error handed back comes from somewhere else (a later call)
+				// and may be nil: the suppressed failure is forgotten
+				bad = append(bad, "return at "+p.pos(r.Instr.Pos())+" is reached without the callee's status having been tested for failure and hands back "+sh.String()+", which may be nil")
 				continue
 			}
 			if p.statusFact(fs, stV, failedK) == 1 {
